@@ -86,6 +86,13 @@ func TestVerifBoundedC11NodeModel(t *testing.T) {
 		{"SetCidBuilder(nil)", func(n *ProtoNode, _ *[]verifC11Link, _ *[]byte, _ *int) { _ = n.SetCidBuilder(nil) }},
 		{"Cid()", func(n *ProtoNode, _ *[]verifC11Link, _ *[]byte, _ *int) { _ = n.Cid() }},
 		{"Links()", func(n *ProtoNode, _ *[]verifC11Link, _ *[]byte, _ *int) { _ = n.Links() }},
+		{"Copy then mutate the copy", func(n *ProtoNode, _ *[]verifC11Link, _ *[]byte, _ *int) {
+			c := n.Copy().(*ProtoNode)
+			_ = c.RemoveNodeLink("a")
+			_ = c.AddRawLink("0", &format.Link{Cid: ca, Size: 9})
+			c.SetData([]byte("copy"))
+			_ = c.Cid()
+		}},
 		{"UnmarshalJSON(valid)", func(n *ProtoNode, model *[]verifC11Link, data *[]byte, seq *int) {
 			src := NodeWithData([]byte("j"))
 			_ = src.AddRawLink("q", &format.Link{Cid: ca, Size: 7})
@@ -179,6 +186,37 @@ func TestVerifBoundedC11NodeModel(t *testing.T) {
 			if fails <= 10 {
 				fmt.Printf("VERIF-FAIL C11 %v: %s\n", names, bad)
 			}
+		}
+	}
+	// stable order of many links with equal names (sorting algorithms switch strategy with size)
+	{
+		cases++
+		n := NodeWithData(nil)
+		var want []string
+		for i := 0; i < 40; i++ {
+			name := []string{"y", "x", "z"}[i%3]
+			if err := n.AddRawLink(name, &format.Link{Cid: ca, Size: uint64(i)}); err != nil {
+				t.Fatal(err)
+			}
+		}
+		for _, nm := range []string{"x", "y", "z"} {
+			for i := 0; i < 40; i++ {
+				if []string{"y", "x", "z"}[i%3] == nm {
+					want = append(want, fmt.Sprintf("%s%d", nm, i))
+				}
+			}
+		}
+		dec, err := DecodeProtobuf(n.RawData())
+		if err != nil {
+			t.Fatal(err)
+		}
+		var got []string
+		for _, l := range dec.Links() {
+			got = append(got, fmt.Sprintf("%s%d", l.Name, l.Size))
+		}
+		if fmt.Sprint(got) != fmt.Sprint(want) {
+			fails++
+			fmt.Printf("VERIF-FAIL C11 40 links with 3 distinct names: encoded order %v, want name order with insertion order kept %v\n", got, want)
 		}
 	}
 	// canonical form: insertion order of distinct names does not matter
